@@ -1,4 +1,5 @@
 import PewProofs.Export
+import PewProofs.ExportVtk
 
 /-! # C16 — property theorems (statements only depend on `PewModel.Export` and the hypothesis
 bundle `Clean` on the opaque number printer/parser) -/
@@ -172,61 +173,141 @@ theorem vtk_offsets_consistent (blocks : List (List α)) (k : Nat) (hk : k < blo
     rw [Nat.add_assoc, hskip (1 + p)]
     exact hhead.2 p hp
 
+/-- what `vtkRender` returns when it returns something -/
+theorem vtkRender_some (endian : Str) (sp : Str × Str × Str) (img : Image α) (file : VtkFile α)
+    (hf : vtkRender endian sp img = some file) :
+    img.fields ≠ [] ∧ file =
+      { head := (vtkHeadLines endian sp img.n1 img.n0 img.n2 (img.fields.map (·.name))
+            (offsetsFrom 0 ((img.fields.map fun f => vtkBlock (img.vol f)).map List.length))).flatMap (· ++ ['\n']) ++ ['_'],
+        body := appended (img.fields.map fun f => vtkBlock (img.vol f)),
+        tail := "</AppendedData>\n</VTKFile>".toList } := by
+  unfold vtkRender at hf
+  split at hf
+  · exact absurd hf (by simp)
+  · rename_i f0 tl heq
+    refine ⟨by rw [heq]; simp, ?_⟩
+    simp only [Option.some.injEq] at hf
+    rw [← hf]
+    rfl
+
+theorem blocks_lengths (img : Image α) :
+    (img.fields.map fun f => vtkBlock (img.vol f)).map List.length = img.fields.map fun _ => img.n1 * img.n0 * img.n2 := by
+  rw [List.map_map]
+  apply List.map_congr_left
+  intro f _
+  simp only [Function.comp, vtk_block_length]
+  rfl
+
+/-- **the header reads back**: the reader finds, in the header text written for an image of
+`ny = n0` rows, `nx = n1` columns and `nz = n2` layers, the file type, version, byte order and
+header type, `WholeExtent = Piece Extent = 0 nx 0 ny 0 nz`, the origin `0.0 0.0 0.0`, the three
+spacing values, the `Scalars` name, and per element its name (whatever characters it holds: the
+escaping is undone), `Float64`, `appended` and the offset `Σ_{j<k} (8·nx·ny·nz + 8)`.
+Hypothesis `HeadOk`: the opaque byte-order and spacing tokens hold no quote, ampersand, line break
+(nor a space inside one spacing value), and no element name holds a line break. -/
+theorem vtk_header_reads_back (endian : Str) (sp : Str × Str × Str) (img : Image α)
+    (h : HeadOk endian sp (img.fields.map (·.name))) (file : VtkFile α) (hf : vtkRender endian sp img = some file) :
+    vtkParse file.head = some (vtkMetaSpec endian sp img) := by
+  obtain ⟨_, rfl⟩ := vtkRender_some endian sp img file hf
+  simp only []
+  rw [vtkParse_headLines endian sp _ _ _ _ _ h, blocks_lengths]
+  rfl
+
+/-- **the file decodes to the image**: for the file `vtk.save` writes (header text, appended
+words), the reader's view of the header is the image's geometry (`vtk_header_reads_back`), and for
+every element `k` the declared offset is a multiple of 8, the word at that offset is the byte
+count `8·nx·ny·nz` — the declared extents times 8 — and the word `x + nx·(y + ny·z)` after it is the
+element's value at row `ny − 1 − y`, column `x`, layer `z`: x along the columns, y from the bottom row. -/
+theorem vtk_file_decodes (endian : Str) (sp : Str × Str × Str) (img : Image α)
+    (h : HeadOk endian sp (img.fields.map (·.name))) (file : VtkFile α) (hf : vtkRender endian sp img = some file) :
+    ∃ m, vtkParse file.head = some m ∧ m.whole = [0, img.n1, 0, img.n0, 0, img.n2] ∧ m.piece = m.whole ∧
+      m.arrays.map (·.name) = img.fields.map (·.name) ∧
+      ∀ k (hk : k < img.fields.length), ∃ a, m.arrays[k]? = some a ∧ a.offset % 8 = 0 ∧
+        file.body[a.offset / 8]? = some (Word.len (img.n1 * img.n0 * img.n2 * 8)) ∧
+        ∀ x y z, x < img.n1 → y < img.n0 → z < img.n2 →
+          file.body[a.offset / 8 + 1 + (x + img.n1 * (y + img.n0 * z))]?
+            = some (Word.val ((img.fields[k]).get (img.n0 - 1 - y) x z)) := by
+  have hparse := vtk_header_reads_back endian sp img h file hf
+  obtain ⟨_, rfl⟩ := vtkRender_some endian sp img file hf
+  have hw : (vtkMetaSpec endian sp img).whole = [0, img.n1, 0, img.n0, 0, img.n2] := by unfold vtkMetaSpec; rfl
+  have hpc : (vtkMetaSpec endian sp img).piece = (vtkMetaSpec endian sp img).whole := by unfold vtkMetaSpec; rfl
+  have harr : (vtkMetaSpec endian sp img).arrays = (List.zip (img.fields.map (·.name))
+      (offsetsFrom 0 (img.fields.map fun _ => img.n1 * img.n0 * img.n2))).map
+      fun p => ({ name := p.1, type := "Float64".toList, format := "appended".toList, offset := p.2 } : ArrayMeta) := by
+    unfold vtkMetaSpec; rfl
+  refine ⟨vtkMetaSpec endian sp img, hparse, hw, hpc, ?_, ?_⟩
+  · rw [harr, List.map_map]
+    rw [show ((fun a : ArrayMeta => a.name) ∘ fun p : Str × Nat =>
+        ({ name := p.1, type := "Float64".toList, format := "appended".toList, offset := p.2 } : ArrayMeta)) = Prod.fst from rfl]
+    apply List.map_fst_zip
+    simp [offsetsFrom_length]
+  · intro k hk
+    have hkb : k < (img.fields.map fun f => vtkBlock (img.vol f)).length := by simpa using hk
+    obtain ⟨ho, hmod, hlenw, hvals⟩ := vtk_offsets_consistent (img.fields.map fun f => vtkBlock (img.vol f)) k hkb
+    have hbk : (img.fields.map fun f => vtkBlock (img.vol f))[k] = vtkBlock (img.vol img.fields[k]) := by simp
+    have hbl : ((img.fields.map fun f => vtkBlock (img.vol f))[k]).length = img.n1 * img.n0 * img.n2 := by
+      rw [hbk, vtk_block_length]; rfl
+    rw [blocks_lengths] at ho
+    refine ⟨{ name := (img.fields[k]).name, type := "Float64".toList, format := "appended".toList,
+              offset := (((img.fields.map fun f => vtkBlock (img.vol f)).take k).map (fun b => b.length * 8 + 8)).sum },
+            ?_, hmod, ?_, ?_⟩
+    · have hzip : ((img.fields.map (·.name)).zip (offsetsFrom 0 (img.fields.map fun _ => img.n1 * img.n0 * img.n2)))[k]?
+          = some ((img.fields[k]).name,
+              (((img.fields.map fun f => vtkBlock (img.vol f)).take k).map (fun b => b.length * 8 + 8)).sum) :=
+        List.getElem?_zip_eq_some.mpr ⟨by simp [hk], ho⟩
+      rw [harr, List.getElem?_map, hzip]
+      rfl
+    · show (appended (img.fields.map fun f => vtkBlock (img.vol f)))[_]? = _
+      rw [hlenw, hbl]
+    · intro x y z hx hy hz
+      have hp : x + img.n1 * (y + img.n0 * z) < ((img.fields.map fun f => vtkBlock (img.vol f))[k]).length := by
+        rw [hbl]
+        have h1 : y + img.n0 * z < img.n0 * img.n2 := by
+          have : img.n0 * z + img.n0 ≤ img.n0 * img.n2 := by
+            rw [← Nat.mul_succ]; exact Nat.mul_le_mul_left _ hz
+          omega
+        have h2 : img.n1 * (y + img.n0 * z) + img.n1 ≤ img.n1 * (img.n0 * img.n2) := by
+          rw [← Nat.mul_succ]; exact Nat.mul_le_mul_left _ h1
+        rw [Nat.mul_assoc]; omega
+      show (appended (img.fields.map fun f => vtkBlock (img.vol f)))[_]? = _
+      rw [hvals _ hp]
+      have hd : (vtkBlock (img.vol img.fields[k]))[x + img.n1 * (y + img.n0 * z)]?
+          = some ((img.fields[k]).get (img.n0 - 1 - y) x z) := vtk_decode (img.vol img.fields[k]) x y z hx hy hz
+      rw [← hbk, List.getElem?_eq_getElem hp] at hd
+      simp only [Option.some.injEq] at hd
+      rw [hd]
+
+/-- non-vacuity: a 2×3 image with two elements, one of them with a name that needs escaping -/
+def imgB : Image Nat :=
+  { n0 := 2, n1 := 3, n2 := 1,
+    fields := [{ name := "a&\"b\"<".toList, get := fun i j _ => 10 * i + j }, { name := "c".toList, get := fun i j _ => 100 + 10 * i + j }] }
+
+theorem headOk_imgB : HeadOk "LittleEndian".toList ("1".toList, "2.5".toList, "1e-05".toList) (imgB.fields.map (·.name)) :=
+  ⟨by decide, by decide, by decide⟩
+
+example : ∃ file, vtkRender "LittleEndian".toList ("1".toList, "2.5".toList, "1e-05".toList) imgB = some file ∧
+    vtkParse file.head = some (vtkMetaSpec "LittleEndian".toList ("1".toList, "2.5".toList, "1e-05".toList) imgB) := by
+  cases hf : vtkRender "LittleEndian".toList ("1".toList, "2.5".toList, "1e-05".toList) imgB with
+  | none => simp [vtkRender, imgB] at hf
+  | some file => exact ⟨file, rfl, vtk_header_reads_back _ _ _ headOk_imgB file hf⟩
+
+example : natStr 1207 = "1207".toList := by
+  rw [natStr, natStr, natStr, natStr]; decide
+
+example : arrayLine "a&\"b\"<".toList 56
+    = "<DataArray Name=\"a&amp;&quot;b&quot;&lt;\" type=\"Float64\" format=\"appended\" offset=\"56\"/>".toList := by
+  have : natStr 56 = "56".toList := by rw [natStr, natStr]; decide
+  rw [arrayLine, this]; decide
+
 end vtk
 
 /-- the five sequential replacements of the code (ampersand first) escape every character
 independently: no replacement re-escapes the output of an earlier one -/
-theorem escape_mech_eq_spec (s : Str) : escapeMech s = escapeSpec s := by
-  unfold escapeMech escapeSpec
-  simp only [replaceC_eq]
-  induction s with
-  | nil => rfl
-  | cons x s ih =>
-    simp only [List.flatMap_cons, List.flatMap_append]
-    rw [ih, escape_char x]
+theorem escape_mech_eq_spec (s : Str) : escapeMech s = escapeSpec s := escapeMech_eq_spec s
 
 /-- **escaping is inverted by entity decoding**, for every string (also one that already contains
 entity text such as `&amp;`) -/
-theorem escape_inverse (s : Str) : unescape (escapeMech s) = s := by
-  rw [escape_mech_eq_spec]
-  induction s with
-  | nil => simp [escapeSpec, unescape]
-  | cons c s ih =>
-    have hcons : escapeSpec (c :: s) = escChar c ++ escapeSpec s := by simp [escapeSpec]
-    rw [hcons]
-    unfold escChar
-    by_cases h1 : c = '&'
-    · subst h1
-      rw [if_pos rfl]
-      have := unescape_entity "amp;".toList '&' (escapeSpec s) (by simp [entityAt])
-      simpa [ih] using this
-    · rw [if_neg h1]
-      by_cases h2 : c = '<'
-      · subst h2
-        rw [if_pos rfl]
-        have := unescape_entity "lt;".toList '<' (escapeSpec s) (by simp [entityAt])
-        simpa [ih] using this
-      · rw [if_neg h2]
-        by_cases h3 : c = '>'
-        · subst h3
-          rw [if_pos rfl]
-          have := unescape_entity "gt;".toList '>' (escapeSpec s) (by simp [entityAt])
-          simpa [ih] using this
-        · rw [if_neg h3]
-          by_cases h4 : c = '"'
-          · subst h4
-            rw [if_pos rfl]
-            have := unescape_entity "quot;".toList '"' (escapeSpec s) (by simp [entityAt])
-            simpa [ih] using this
-          · rw [if_neg h4]
-            by_cases h5 : c = '\''
-            · subst h5
-              rw [if_pos rfl]
-              have := unescape_entity "apos;".toList '\'' (escapeSpec s) (by simp [entityAt])
-              simpa [ih] using this
-            · rw [if_neg h5]
-              simp only [List.singleton_append]
-              rw [unescape_plain c _ h1, ih]
+theorem escape_inverse (s : Str) : unescape (escapeMech s) = s := unescape_escapeMech s
 
 example : escapeMech "a<b&amp;'".toList = "a&lt;b&amp;amp;&apos;".toList := by decide
 
